@@ -81,122 +81,133 @@ def nest(rng, d):
     return rng.choice(STMTS)
 
 
-def frag_body(rng, depth):
-    c = rng.randrange(5)
-    if c == 0 and depth < 6: return ('b', frag_tree(rng, depth + 1))
-    if c == 1: return ('a',)
+def frag_stmt(rng, depth, closed=False):
+    """a random statement of the fragment of Model/Fragment.v (without its `;`):
+    ('s',) | ('a',) | ('b', stmts) | ('r', stmts) | ('t', stmts, stmts) | ('x', stmts, stmts) | ('i', stmt) | ('e', stmt, stmt)
+    | ('w', stmt) | ('c', [stmt...], None | stmts) | ('h', stmts, [stmt...]) (try/except with `on` handlers); closed: must not end in an if without else"""
+    c = rng.randrange(18)
+    deep = depth >= 6
+    if c == 0 and not deep: return ('b', frag_tree(rng, depth + 1))
+    if c == 1 and not deep: return ('r', frag_tree(rng, depth + 1))
+    if c == 2 and not deep: return ('t', frag_tree(rng, depth + 1), frag_tree(rng, depth + 1))
+    if c == 3 and not deep: return ('x', frag_tree(rng, depth + 1), frag_tree(rng, depth + 1))
+    if c == 4: return ('a',)
+    if c == 5 and not deep and not closed: return ('i', frag_stmt(rng, depth + 1))
+    if c == 6 and not deep: return ('e', frag_stmt(rng, depth + 1, True), frag_stmt(rng, depth + 1, closed))
+    if c == 7 and not deep: return ('w', frag_stmt(rng, depth + 1, closed))
+    if c == 8 and not deep:
+        return ('c', [frag_stmt(rng, depth + 1) for _ in range(rng.randrange(0, 4))], None if rng.randrange(2) else frag_tree(rng, depth + 1))
+    if c == 9 and not deep: return ('h', frag_tree(rng, depth + 1), [frag_stmt(rng, depth + 1) for _ in range(rng.randrange(0, 3))])
     return ('s',)
 def frag_tree(rng, depth=0):
-    """a random statement list of the fragment of Model/Fragment.v:
-    ('s',) | ('a',) | ('b', body) | ('r', body) | ('t', body, fin) | ('x', body, exc) | ('i', tbody) | ('e', tbody, tbody) | ('w', tbody)
-    | ('c', [tbody...], None | else-body)
-    with tbody = ('s',) | ('a',) | ('b', body)"""
-    out = []
-    for _ in range(rng.randrange(0, 5 if depth < 4 else 2)):
-        c = rng.randrange(13)
-        if c == 0 and depth < 6: out.append(('b', frag_tree(rng, depth + 1)))
-        elif c == 1 and depth < 6: out.append(('r', frag_tree(rng, depth + 1)))
-        elif c == 2 and depth < 6: out.append(('t', frag_tree(rng, depth + 1), frag_tree(rng, depth + 1)))
-        elif c == 3: out.append(('a',))
-        elif c == 4: out.append(('i', frag_body(rng, depth)))
-        elif c == 5: out.append(('e', frag_body(rng, depth), frag_body(rng, depth)))
-        elif c == 6: out.append(('w', frag_body(rng, depth)))
-        elif c == 7 and depth < 6: out.append(('x', frag_tree(rng, depth + 1), frag_tree(rng, depth + 1)))
-        elif c == 8 and depth < 6: out.append(('c', [frag_body(rng, depth + 1) for _ in range(rng.randrange(0, 4))], None if rng.randrange(2) else frag_tree(rng, depth + 1)))
-        else: out.append(('s',))
-    return out
-def frag_body_text(b, rng, ind):
+    return [frag_stmt(rng, depth) for _ in range(rng.randrange(0, 5 if depth < 3 else 2))]
+def frag_stmt_text(t, rng, ind):
     sp = lambda: rng.choice(["\n", " "])
-    if b[0] == 's': return rng.choice(["Foo", "x", "Bar1"])
-    if b[0] == 'a': return "x" + rng.choice([" := ", ":="]) + "y"
-    return "begin" + sp() + frag_text(b[1], rng, ind + 1) + sp() + "end"
+    pad = rng.choice(["  " * ind, "", " "])
+    k = t[0]
+    if k == 's': return rng.choice(["Foo", "x", "Bar1"])
+    if k == 'a': return "x" + rng.choice([" := ", ":="]) + "y"
+    if k == 'b': return "begin" + sp() + frag_text(t[1], rng, ind + 1) + sp() + pad + "end"
+    if k == 'r': return "repeat" + sp() + frag_text(t[1], rng, ind + 1) + sp() + pad + "until Done"
+    if k in ('t', 'x'):
+        return ("try" + sp() + frag_text(t[1], rng, ind + 1) + sp() + pad + ("finally" if k == 't' else "except") + sp()
+                + frag_text(t[2], rng, ind + 1) + sp() + pad + "end")
+    if k == 'h':
+        txt = "try" + sp() + frag_text(t[1], rng, ind + 1) + sp() + pad + "except" + sp()
+        for b in t[2]: txt += pad + "on E" + rng.choice([":", " :", ": "]) + " Exception do" + sp() + frag_stmt_text(b, rng, ind + 1) + ";" + sp()
+        return txt + pad + "end"
+    if k == 'i': return "if Cond then" + sp() + frag_stmt_text(t[1], rng, ind + 1)
+    if k == 'e': return "if Cond then" + sp() + frag_stmt_text(t[1], rng, ind + 1) + sp() + pad + "else" + sp() + frag_stmt_text(t[2], rng, ind + 1)
+    if k == 'w': return "while Cond do" + sp() + frag_stmt_text(t[1], rng, ind + 1)
+    txt = "case Sel of" + sp()
+    for b in t[1]: txt += pad + rng.choice(["A", "B1"]) + rng.choice([":", " :", ": "]) + sp() + frag_stmt_text(b, rng, ind + 1) + ";" + sp()
+    if t[2] is not None: txt += pad + "else" + sp() + frag_text(t[2], rng, ind + 1) + sp()
+    return txt + pad + "end"
 def frag_text(tree, rng, ind=1):
-    parts = []
-    sp = lambda: rng.choice(["\n", " "])
-    for t in tree:
-        pad = rng.choice(["  " * ind, "", " "])
-        if t[0] == 's': parts.append(pad + rng.choice(["Foo", "x", "Bar1"]) + rng.choice([";", " ;"]))
-        elif t[0] == 'a': parts.append(pad + "x" + rng.choice([" := ", ":="]) + "y;")
-        elif t[0] == 'b': parts.append(pad + "begin" + sp() + frag_text(t[1], rng, ind + 1) + sp() + pad + "end;")
-        elif t[0] == 'r': parts.append(pad + "repeat" + sp() + frag_text(t[1], rng, ind + 1) + sp() + pad + "until Done;")
-        elif t[0] in ('t', 'x'): parts.append(pad + "try" + sp() + frag_text(t[1], rng, ind + 1) + sp() + pad + ("finally" if t[0] == 't' else "except") + sp()
-                           + frag_text(t[2], rng, ind + 1) + sp() + pad + "end;")
-        elif t[0] == 'i': parts.append(pad + "if Cond then" + sp() + frag_body_text(t[1], rng, ind) + rng.choice([";", " ;"]))
-        elif t[0] == 'e': parts.append(pad + "if Cond then" + sp() + frag_body_text(t[1], rng, ind) + sp() + "else" + sp()
-                           + frag_body_text(t[2], rng, ind) + ";")
-        elif t[0] == 'c':
-            txt = pad + "case Sel of" + sp()
-            for b in t[1]: txt += pad + rng.choice(["A", "B1"]) + rng.choice([":", " :", ": "]) + sp() + frag_body_text(b, rng, ind + 1) + ";" + sp()
-            if t[2] is not None: txt += pad + "else" + sp() + frag_text(t[2], rng, ind + 1) + sp()
-            parts.append(txt + pad + "end;")
-        else: parts.append(pad + "while Cond do" + sp() + frag_body_text(t[1], rng, ind) + ";")
+    parts = [rng.choice(["  " * ind, "", " "]) + frag_stmt_text(t, rng, ind) + rng.choice([";", " ;"]) for t in tree]
     return rng.choice(["\n", " ", "\n\n"]).join(parts)
-def frag_expected(tree, d, k, out, par=None):
-    """appends the expected lines (level, parent, tokens) of parse_file to out and returns the next token
-    index — written directly for the final lines (no empty lines, parents as final line indices)"""
-    lv = lambda x: min(x, 65535)
-    def body(b, p, k, semi):
-        # the child lines of a body; semi: index of the `;` that goes to the last line, or None
-        sm = [semi] if semi is not None else []
-        if b[0] == 's': out.append((1, p, [k] + sm)); return k + 1
-        if b[0] == 'a': out.append((1, p, [k, k + 1, k + 2] + sm)); return k + 3
-        out.append((1, p, [k])); k = frag_expected(b[1], 2, k + 1, out, p)
-        out.append((1, p, [k] + sm)); return k + 1
-    def body_len(b):
-        return 1 if b[0] == 's' else 3 if b[0] == 'a' else 2 + frag_len(b[1])
-    for t in tree:
-        if t[0] == 's': out.append((lv(d), par, [k, k + 1])); k += 2
-        elif t[0] == 'a': out.append((lv(d), par, [k, k + 1, k + 2, k + 3])); k += 4
-        elif t[0] == 'b':
-            out.append((lv(d), par, [k])); k = frag_expected(t[1], d + 1, k + 1, out, par)
-            out.append((lv(d), par, [k, k + 1])); k += 2
-        elif t[0] == 'r':
-            out.append((lv(d), par, [k])); k = frag_expected(t[1], d + 1, k + 1, out, par)
-            out.append((lv(d), par, [k, k + 1, k + 2])); k += 3
-        elif t[0] in ('t', 'x'):
-            out.append((lv(d), par, [k])); k = frag_expected(t[1], d + 1, k + 1, out, par)
-            out.append((lv(d), par, [k])); k = frag_expected(t[2], d + 1, k + 1, out, par)
-            out.append((lv(d), par, [k, k + 1])); k += 2
-        elif t[0] in ('i', 'w'):
-            h = len(out); e = k + 3 + body_len(t[1])
-            out.append((lv(d), par, [k, k + 1, k + 2])); body(t[1], (h, k + 2), k + 3, e); k = e + 1
-        elif t[0] == 'c':
-            # the child lines of an arm come after the line that follows the arm line
-            out.append((lv(d), par, [k, k + 1, k + 2])); k += 3; pending = None
-            for b in t[1]:
-                idx = len(out); out.append((lv(d + 1), par, [k, k + 1]))
-                if pending: body(*pending)
-                e = k + 2 + body_len(b); pending = (b, (idx, k + 1), k + 2, e); k = e + 1
-            if t[2] is None:
-                out.append((lv(d), par, [k, k + 1]))
-                if pending: body(*pending)
-                k += 2
-            else:
-                out.append((lv(d), par, [k]))
-                if pending: body(*pending)
-                k = frag_expected(t[2], d + 1, k + 1, out, par)
-                out.append((lv(d), par, [k, k + 1])); k += 2
-        else:
-            h = len(out); el = k + 3 + body_len(t[1]); e = el + 1 + body_len(t[2])
-            out.append((lv(d), par, [k, k + 1, k + 2, el])); body(t[1], (h, k + 2), k + 3, None); body(t[2], (h, el), el + 1, e); k = e + 1
-    return k
+def frag_stmt_len(t):
+    k = t[0]
+    if k == 's': return 1
+    if k == 'a': return 3
+    if k == 'b': return 2 + frag_len(t[1])
+    if k == 'r': return 3 + frag_len(t[1])
+    if k in ('t', 'x'): return 3 + frag_len(t[1]) + frag_len(t[2])
+    if k == 'h': return 3 + frag_len(t[1]) + sum(6 + frag_stmt_len(b) for b in t[2])
+    if k in ('i', 'w'): return 3 + frag_stmt_len(t[1])
+    if k == 'e': return 4 + frag_stmt_len(t[1]) + frag_stmt_len(t[2])
+    return 4 + sum(3 + frag_stmt_len(b) for b in t[1]) + (0 if t[2] is None else 1 + frag_len(t[2]))
 def frag_len(tree):
-    n = 0
+    return sum(frag_stmt_len(t) + 1 for t in tree)
+def frag_stmt_expected(t, d, k, sm, out, par):
+    """appends the expected lines (level, parent, tokens) of parse_file for the statement t from token k on (sm: the
+    index of the `;` that joins its last line, as a list) — written directly for the final lines (no empty lines,
+    parents as final line indices); returns the next token index (after the statement, before its `;`)"""
+    lv = lambda x: min(x, 65535)
+    kd = t[0]
+    if kd == 's': out.append((lv(d), par, [k] + sm)); return k + 1
+    if kd == 'a': out.append((lv(d), par, [k, k + 1, k + 2] + sm)); return k + 3
+    if kd == 'b':
+        out.append((lv(d), par, [k])); k = frag_expected(t[1], d + 1, k + 1, out, par)
+        out.append((lv(d), par, [k] + sm)); return k + 1
+    if kd == 'r':
+        out.append((lv(d), par, [k])); k = frag_expected(t[1], d + 1, k + 1, out, par)
+        out.append((lv(d), par, [k, k + 1] + sm)); return k + 2
+    if kd in ('t', 'x'):
+        out.append((lv(d), par, [k])); k = frag_expected(t[1], d + 1, k + 1, out, par)
+        out.append((lv(d), par, [k])); k = frag_expected(t[2], d + 1, k + 1, out, par)
+        out.append((lv(d), par, [k] + sm)); return k + 1
+    if kd == 'h':
+        out.append((lv(d), par, [k])); k = frag_expected(t[1], d + 1, k + 1, out, par)
+        out.append((lv(d), par, [k])); k += 1
+        for b in t[2]:
+            h = len(out); out.append((lv(d + 1), par, [k, k + 1, k + 2, k + 3, k + 4]))
+            e = k + 5 + frag_stmt_len(b)
+            frag_stmt_expected(b, 1, k + 5, [e], out, (h, k + 4)); k = e + 1
+        out.append((lv(d), par, [k] + sm)); return k + 1
+    if kd in ('i', 'w'):
+        h = len(out); out.append((lv(d), par, [k, k + 1, k + 2]))
+        return frag_stmt_expected(t[1], 1, k + 3, sm, out, (h, k + 2))
+    if kd == 'e':
+        h = len(out); el = k + 3 + frag_stmt_len(t[1])
+        out.append((lv(d), par, [k, k + 1, k + 2, el]))
+        frag_stmt_expected(t[1], 1, k + 3, [], out, (h, k + 2))
+        return frag_stmt_expected(t[2], 1, el + 1, sm, out, (h, el))
+    # case: the child lines of an arm come after the line that follows the arm line
+    out.append((lv(d), par, [k, k + 1, k + 2])); k += 3; pending = None
+    for b in t[1]:
+        idx = len(out); out.append((lv(d + 1), par, [k, k + 1]))
+        if pending: frag_stmt_expected(*pending)
+        e = k + 2 + frag_stmt_len(b); pending = (b, 1, k + 2, [e], out, (idx, k + 1)); k = e + 1
+    if t[2] is None:
+        out.append((lv(d), par, [k] + sm))
+        if pending: frag_stmt_expected(*pending)
+        return k + 1
+    out.append((lv(d), par, [k]))
+    if pending: frag_stmt_expected(*pending)
+    k = frag_expected(t[2], d + 1, k + 1, out, par)
+    out.append((lv(d), par, [k] + sm)); return k + 1
+def frag_expected(tree, d, k, out, par=None):
     for t in tree:
-        bl = lambda b: 1 if b[0] == 's' else 3 if b[0] == 'a' else 2 + frag_len(b[1])
-        n += {'s': 2, 'a': 4}.get(t[0], 0)
-        if t[0] == 'b': n += 3 + frag_len(t[1])
-        elif t[0] == 'r': n += 4 + frag_len(t[1])
-        elif t[0] in ('t', 'x'): n += 4 + frag_len(t[1]) + frag_len(t[2])
-        elif t[0] in ('i', 'w'): n += 4 + bl(t[1])
-        elif t[0] == 'e': n += 5 + bl(t[1]) + bl(t[2])
-        elif t[0] == 'c': n += 5 + sum(3 + bl(b) for b in t[1]) + (0 if t[2] is None else 1 + frag_len(t[2]))
-    return n
+        e = k + frag_stmt_len(t)
+        frag_stmt_expected(t, d, k, [e], out, par); k = e + 1
+    return k
 def frag_program(rng):
+    """a program of the fragment; in half of the cases a unit: `var`/`const` sections (Model/Fragment.v render_unit)
+    in front of the main block — the section keyword on a line of level 0, every member on its line of level 1"""
     tree = frag_tree(rng)
-    text = "begin" + rng.choice(["\n", " "]) + frag_text(tree, rng) + rng.choice(["\n", " "]) + "end."
-    out = [(0, None, [0])]
-    k = frag_expected(tree, 1, 1, out)
+    sep = lambda: rng.choice(["\n", " "])
+    head = ""; out = []; k = 0
+    if rng.random() < 0.5:
+        for _ in range(rng.randrange(1, 4)):
+            cst = rng.random() < 0.5; nm = rng.randrange(0, 4)
+            head += ("const" if cst else "var") + sep(); out.append((0, None, [k])); k += 1
+            for _ in range(nm):
+                head += rng.choice(["x", "y1", "Foo"]) + (" = " if cst else ": ") + rng.choice(["T", "u", "Bar"]) + ";" + sep()
+                out.append((1, None, [k, k + 1, k + 2, k + 3])); k += 4
+    text = head + "begin" + sep() + frag_text(tree, rng) + sep() + "end."
+    out.append((0, None, [k]))
+    k = frag_expected(tree, 1, k + 1, out)
     return text, out + [(0, None, [k, k + 1]), (0, None, [k + 2])]
 
 def gen_set(name, n, rng):
